@@ -672,12 +672,16 @@ def c05_cases(tier):
                     return "selecting `%s`: Variables has the members %s, expected %s" % (sel, var, want_vars)
             return None
         yield case, oracle_case
-    for sel in ("HEIGHTS", "other"):
+    for sel in ("HEIGHTS", "other", "Nope", "heights_", "OTHER", "Height"):
         case = {"schema": schema3, "query": doc3, "options": {"mode": "derive", "struct_name": sel, "operation_name": sel}}
 
         def oracle_derive(res, sel=sel):
             if res["exit"] == 0 and res["out"] and res["out"].get("ok"):
                 return "derive form: the struct name `%s` matches no operation (names are case-sensitive) but code was generated" % sel
+            msg = ((res.get("out") or {}).get("error") or "")
+            missing = [n for n in ("Heights", "heights", "Other") if not re.search(r"(?<![A-Za-z0-9_])%s(?![A-Za-z0-9_])" % n, msg)]
+            if (res.get("out") or {}).get("error") is not None and missing:
+                return "derive form: the struct name `%s` matches no operation; the error does not name the available operation(s) %s: %r" % (sel, missing, msg[:300])
             return None
         yield case, oracle_derive
     # operations and fragments live in separate namespaces: an operation and a fragment defined after it may share a name
@@ -1019,6 +1023,10 @@ def c02_cases(tier):
         # the same object-typed field selected under two variants, and under a variant as well as on the interface itself: one struct each
         "query Q { pet { __typename ... on Dog { name owner { name since } } ... on Cat { owner { name } } } }",
         "query Q { named { __typename name ... on Dog { owner { name pets { __typename ... on Cat { owner { since } } ... on Dog { owner { name } } } } } ... on Cat { owner { since } } } }",
+        # `__typename` supplied by a same-type fragment that several fragments / selections share, and through a chain of such fragments
+        "fragment Base on Named { __typename name } fragment A on Named { ...Base } fragment B on Named { ...Base ... on Dog { kind } } query Q { named { ...A ...B } }",
+        "fragment C3 on Pet { __typename } fragment C2 on Pet { ...C3 } fragment C1 on Pet { ...C2 } fragment D1 on Pet { ...C2 } query Q { pet { ...C1 ...D1 } }",
+        "fragment Base on Named { __typename name } query Q { named { ...Base } best: named { ...Base } } query R { named { ...Base } }",
     ]
     known = set("Option Vec Box String bool i64 f64 u8 Self str super crate std serde Serialize Deserialize graphql_client".split())
     for q in queries:
